@@ -206,11 +206,11 @@ theorem prepare_is_code (row : Mimic.Py.Bytes → Nat) (E : Mimic.Py.Env S) (cp 
     it is the result's own row source; every other statement is untouched.  `parse` (the packet parser, proved in
     `ExecuteCode`) and `app` (the application) are arbitrary; `hreg`: the parser handed back the registry's object. -/
 theorem execute_is_code (row : Mimic.Py.Bytes → Nat) (coldef : Nat → Nat → Mimic.Py.Bytes)
-    (parse : Connection S → Mimic.Py.Bytes → Option (ComStmtExecute S)) (app : ComStmtExecute S → Option (ResultSet S))
+    (parse : Connection S → Mimic.Py.Bytes → Option (ComStmtExecute S)) (app : S → Option (ResultSet S))
     (c : Connection S) (data : Mimic.Py.Bytes) (x : ComStmtExecute S) (nxt : Nat) (hp : parse c data = some x)
     (hreg : Mimic.Py.dictGet c.prepared_stmts x.stmt.stmt_id = some x.stmt) (c' : Connection S)
     (hrun : handle_stmt_execute coldef parse app c data = .ok c' ∨ handle_stmt_execute coldef parse app c data = .error c') :
-    absStmts row c' = (step ⟨absStmts row c, nxt⟩ (.execute x.stmt.stmt_id x.use_cursor (absResult row (app (cleared x))))).1.stmts :=
+    absStmts row c' = (step ⟨absStmts row c, nxt⟩ (.execute x.stmt.stmt_id x.use_cursor (absResult row (app x.sql)))).1.stmts :=
   handle_stmt_execute_registry row coldef parse app c data x nxt hp hreg c' hrun
 
 /-- the id space the model counts in is the code's `Connection._MAX_PREPARED_STMT_ID` (extracted) -/
